@@ -1,9 +1,11 @@
 // C13 (1a) editor / history conformance: BFS over keystroke histories on a real Terminal session driven
 // through a fake Connection; every key is delivered as its unsplit byte encoding via onRecvString.
+// Histories are replayed inside a crash-contained persistent child (c13::Worker), so a crashing key does not end the search.
 // usage: editor_harness <echo|noecho|quiet> <depth> <prefill 0|19>
 #include "hist/hist.h"
 #include "c13_common.h"
 #include <deque>
+#include <map>
 using namespace c13;
 
 enum Key { KA, KB, BS, DEL, LEFT, RIGHT, HOME, END, UP, DOWN, ENTER, NKEY };
@@ -14,6 +16,7 @@ static const char *KN[] = {"a", "b", "BS", "DEL", "LEFT", "RIGHT", "HOME", "END"
 // a half-typed line is not kept while browsing; every non-empty executed line is stored, 20 kept).
 struct Ref {
   std::string line; size_t cur = 0; std::deque<std::string> hist; size_t hidx = 0;
+  std::string where() const { return line.empty() ? "on-empty-line" : cur == 0 ? "at-line-start" : cur == line.size() ? "at-line-end" : "mid-line"; }
   // returns true + the executed line on Enter
   bool key(int k, std::string &executed) {
     switch (k) {
@@ -34,32 +37,31 @@ struct Ref {
 
 static std::vector<std::vector<std::string>> g_calls;   // argv of every probe invocation
 
-int main(int argc, char **argv) {
-  std::string mode = argc > 1 ? argv[1] : "echo"; size_t depth = argc > 2 ? atoi(argv[2]) : 6; int prefill = argc > 3 ? atoi(argv[3]) : 0;
-  uint32_t options = mode == "echo" ? TerminalInteract::kEnableEcho : mode == "quiet" ? TerminalInteract::kQuietMode : 0;
-  bool quiet = mode == "quiet";
-  hx::install_crash_reporter("editor-crash");
+static std::string g_mode; static int g_prefill = 0; static size_t g_depth = 6; static uint32_t g_options = 0; static bool g_quiet = false;
+static Terminal *g_term = nullptr; static Worker g_worker;
 
-  // One Terminal per process (the node tree is constant configuration); a FRESH session per replayed history.
+// child side: one Terminal per child (the node tree is constant configuration); a FRESH session per replayed history
+static void setup() {
   event::Loop *loop = event::Loop::New();
-  Terminal term(loop);
-  term.impl_->session_ctx_pool_.keep_number_ = 0;      // de-pool: a freed session is really freed (ASan sees stale use)
-  auto probe = term.createFuncNode([](const Session &s, const Args &a) { g_calls.push_back(a); s.send("ok\r\n"); }, "probe");
+  g_term = new Terminal(loop);
+  g_term->impl_->session_ctx_pool_.keep_number_ = 0;      // de-pool: a freed session is really freed (ASan sees stale use)
+  auto probe = g_term->createFuncNode([](const Session &s, const Args &a) { g_calls.push_back(a); s.send("ok\r\n"); }, "probe");
   // the probe is mounted under every line over {a,b} that can be typed within the bound, so argv[0] IS the executed line
-  size_t maxlen = (prefill ? 5 : 0) + depth; size_t mounted = 0;
-  for (size_t len = 1; len <= maxlen; len++) for (size_t v = 0; v < ((size_t)1 << len); v++) { std::string n; for (size_t i = 0; i < len; i++) n.push_back(((v >> i) & 1) ? 'b' : 'a'); if (term.mountNode(term.rootNode(), probe, n)) mounted++; }
-  printf("@INFO editor %s: probe mounted under %zu names (all lines over {a,b} up to length %zu)\n", mode.c_str(), mounted, maxlen);
+  size_t maxlen = (g_prefill ? 5 : 0) + g_depth;
+  for (size_t len = 1; len <= maxlen; len++) for (size_t v = 0; v < ((size_t)1 << len); v++) { std::string n; for (size_t i = 0; i < len; i++) n.push_back(((v >> i) & 1) ? 'b' : 'a'); g_term->mountNode(g_term->rootNode(), probe, n); }
+}
 
-  hx::Explorer<int> ex; ex.name = "editor:" + mode + ":prefill" + std::to_string(prefill); ex.deadline_s = hx::deadline_from_env(600);
-  ex.show = [](const int &k) { return std::string(KN[k]); };
-  ex.menu = [&](const std::vector<int> &) { std::vector<int> m; for (int k = 0; k < NKEY; k++) m.push_back(k); return m; };
-  ex.run = [&](const std::vector<int> &h, std::string &viol) {
+static std::string replay(const std::vector<int> &h, std::string &viol) {
+  if (!g_term) setup();
+  Terminal &term = *g_term; uint32_t options = g_options; bool quiet = g_quiet; int prefill = g_prefill;
+  {
     FakeConn c; SessionToken st = term.newSession(&c); term.setOptions(st, options); term.onBegin(st);
     SessionContext *s = term.impl_->sessions_.at(st);
     Ref ref; std::string executed;
     auto step = [&](int k) -> bool {
       c.out.clear(); g_calls.clear();
-      bool r = term.onRecvString(st, ENC[k]);
+      bool r;
+      try { r = term.onRecvString(st, ENC[k]); } catch (const std::exception &e) { viol = std::string("editor-key-") + KN[k] + "-" + ref.where() + "-uncaught-exception what=" + e.what(); g_worker.poisoned = true; return false; }
       bool is_enter = ref.key(k, executed);
       if (!r) { viol = "key-rejected-by-live-session"; return false; }
       if (is_enter) {
@@ -93,8 +95,43 @@ int main(int argc, char **argv) {
     canon += "|" + ref.line + "|" + std::to_string(ref.cur) + "|" + std::to_string(ref.hidx) + "|" + std::to_string(ref.hist.size());
     term.deleteSession(st);
     return canon;
+  }
+}
+
+// the reference alone: where the last key of the history is pressed (names a crash)
+static std::string shape_of(const std::vector<int> &h) {
+  Ref ref; std::string ex;
+  for (int i = 0; i < g_prefill; i++) { for (int b = 0; b < 5; b++) ref.key(((i >> b) & 1) ? KB : KA, ex); ref.key(ENTER, ex); }
+  for (size_t i = 0; i + 1 < h.size(); i++) ref.key(h[i], ex);
+  return h.empty() ? std::string("editor-session-setup") : std::string("editor-key-") + KN[h.back()] + "-" + ref.where();
+}
+
+int main(int argc, char **argv) {
+  signal(SIGPIPE, SIG_IGN);
+  bool one = argc > 5 && std::string(argv[1]) == "--one"; int o = one ? 1 : 0;
+  g_mode = argc > 1 + o ? argv[1 + o] : "echo"; g_depth = argc > 2 + o ? atoi(argv[2 + o]) : 6; g_prefill = argc > 3 + o ? atoi(argv[3 + o]) : 0;
+  g_options = g_mode == "echo" ? TerminalInteract::kEnableEcho : g_mode == "quiet" ? TerminalInteract::kQuietMode : 0; g_quiet = g_mode == "quiet";
+  if (one) { std::vector<int> h; for (const char *p = argv[5]; *p; p++) h.push_back(*p - 'A'); std::string v; replay(h, v); fprintf(stderr, "viol=%s\n", v.c_str()); return 0; }
+  size_t depth = g_depth;
+  g_worker.recycle_after = 50000;
+  g_worker.fn = [](const std::string &job) { std::vector<int> h; for (char ch : job) h.push_back(ch); std::string v, c = replay(h, v); c.push_back('\0'); return c + v; };
+  printf("@INFO editor %s: probe mounted under every line over {a,b} up to length %zu\n", g_mode.c_str(), (g_prefill ? 5 : 0) + g_depth);
+  std::map<std::string, int> crash_seen;
+  hx::Explorer<int> ex; ex.name = "editor:" + g_mode + ":prefill" + std::to_string(g_prefill); ex.deadline_s = deadline(600);
+  ex.show = [](const int &k) { return std::string(KN[k]); };
+  ex.menu = [&](const std::vector<int> &) { std::vector<int> m; for (int k = 0; k < NKEY; k++) m.push_back(k); return m; };
+  ex.run = [&](const std::vector<int> &h, std::string &viol) {
+    std::string job; for (int k : h) job.push_back((char)k);
+    std::string res, crash;
+    if (g_worker.call(job, res, crash)) { size_t z = res.find('\0'); viol = res.substr(z + 1); return res.substr(0, z); }
+    std::string kind = crash.find("heap-use-after-free") != std::string::npos ? "use-after-free" : crash.find("uncaught-exception") != std::string::npos ? "uncaught-exception" :
+                       crash.find("hang") == 0 ? "hang" : crash.find("ubsan-integer") != std::string::npos ? "undefined-behaviour" : "crash";
+    std::string sig = shape_of(h) + "-" + kind; viol = sig + " " + crash;
+    if (crash_seen[sig]++ < 3) { std::string ops; for (int k : h) ops.push_back((char)('A' + k)); viol += " :: " + exec_detail({"--one", g_mode, std::to_string(g_depth), std::to_string(g_prefill), ops}); }
+    return std::string("crashed");
   };
   ex.explore(depth);
-  delete loop;
+  g_worker.stop();
+  printf("@STAT worker_children=%ld\n", g_worker.spawned);
   return 0;
 }
